@@ -13,6 +13,14 @@ Solver queries (nonlinear real arithmetic, every input symbolic) on the REAL sol
                         QUADRATIC; middle zone CONE, normal force > 0, every tangential row f_j*T = -f_N*u_j*friction_j
                         (common factor), hence (closing lemma, any dim) sum (f_j/friction_j)^2 = f_N^2: on the cone; normal
                         force >= 0 in every zone; bottom zone inside the cone under MuJoCo's D scaling of friction rows
+ efcrow                 constraint._efc_row (every row type): efc_D > 0; impedance in [mjMINIMP, mjMAXIMP]; with the MINVAL clamp
+                        inactive D*invweight*(1-imp) = imp; D / impedance are functions of (invweight, pos, solimp) / (pos, solimp)
+                        only; type / id / frictionloss stored; chain lemma D-law + invweight scaling => D_j*mu^2 = D_0*friction_j^2
+ assemble/<cone>/*      the threads of constraint._efc_contact_update and _efc_contact_update_flex for one contact (condim 1,3,4,6;
+                        friction components symbolic and NOT assumed equal, impratio symbolic): every row is assembled by one
+                        _efc_row call into (worldid, efc_address[c,k]) with efc.id = conid and the cone's efc.type, all rows share the
+                        impedance inputs, elliptic friction rows get invweight_j*friction_j^2 = invweight_0*mu^2 (mu as solver.py
+                        reads it), pyramid edge rows share invweight  => the D relation the cone lemmas (c)/(d) and C06 use
  qfrc/*                 qfrc_constraint = J^T force: dense kernel (sum over rows), sparse / compact kernels (row contributions
                         + zeroing kernel), and _qfrc_constraint_from_grad inverting _update_gradient_grad
 """
@@ -184,7 +192,7 @@ def unit_scalar(track):
     bg = kt.bg + [ne >= 0, nf >= 0, Not(kt.pre("ctx_done_in", w)), e < nefc, D > 0, fl >= 0, typ != L.T_ELLIPTIC]
     ctx.assume(
       "row is live: world not done, efcid < nefc; ne, nf >= 0; rows are ordered equality | friction | limit | contact (MuJoCo layout), the row is not an elliptic contact row",
-      "efc_D > 0 and frictionloss >= 0 (post-conditions of _efc_row, C05)",
+      "efc_D > 0 (proved for every row _efc_row writes: unit efcrow) and frictionloss >= 0 (model validation: the stored value is the dof / tendon frictionloss argument, unit efcrow)",
       "thread's own accesses in bounds (C17); floats are exact reals",
     )
     sess = ctx.session(bg)
@@ -212,7 +220,7 @@ def unit_scalar(track):
 
 ELL_ASSUME = (
   "concrete bookkeeping laid out as MuJoCo / _efc_contact_init produce it without njmax overflow: rows ordered equality | friction | contact | limit, the contact's rows typed CONTACT_ELLIPTIC with efc_id = conid < nacon, contact.dim = dim, efc_address[conid, j] = e0+j, world not done, rows < nefc <= njmax",
-  "efc_D > 0, friction[0..dim-2] > 0, impratio^-1/2 > 0 (post-conditions of _efc_row / contact_params, C05/C04); all float inputs symbolic",
+  "efc_D > 0 (proved: unit efcrow), friction[0..dim-2] > 0, impratio^-1/2 > 0 (contact_params / option validation, C04); all float inputs symbolic",
   "floats are exact reals",
 )
 
@@ -376,7 +384,7 @@ def unit_eval(dim):
     le = ctx.session([D0 > 0, mul > 0, Tl >= 0, mul * Nl + Tl <= 0, F0 * mul == -D0 * Nl, Sl * mul * mul * mul * mul == D0 * D0 * Tl * Tl], tactic=NL)
     ctx.reach(le, "twin:lemma-d2", Tl > 0)
     ctx.prove(le, "lemma/d2:bottom-zone-inside-cone", And(F0 >= 0, Sl <= F0 * F0), True, names={"F0": F0}, replay=nr, desc="bottom zone forces -D_j*jaref_j leave the friction cone although D_j*mu^2 = D_0*friction_j^2")
-    ctx.assume("lemma (c)/(d) (bottom zone inside the cone) additionally assume MuJoCo's friction-row regularisation D_j * mu^2 = D_0 * friction_j^2 (mj_makeImpedance scaling; holds when the MINVAL clamp on R is inactive)")
+    ctx.assume("lemma (c)/(d) (bottom zone inside the cone) use the friction-row regularisation D_j * mu^2 = D_0 * friction_j^2; it is PROVED for the rows written by constraint._efc_contact_update[_flex] (units assemble/elliptic/* + efcrow + its chain lemma) when the MJ_MINVAL clamp on R is inactive (efc_D * MJ_MINVAL < 1 for the contact's rows)")
 
   return (f"eval/elliptic/condim{dim}", run)
 
@@ -666,7 +674,14 @@ def unit_assemble(elliptic, dim, flex, layout, adhesion=True):
     )
     pre = U.bg + [U.imp > 0] + [f > 0 for f in U.fr]
     sess = ctx.session(pre, tactic="qfnra-nlsat")
-    ctx.reach(ctx.session(pre), "twin:contact-rows", True)
+    # reachability twin with a concrete witness for the float inputs (the bare satisfiability query over all the division
+    # contracts is slow for the incremental solver): generic anisotropic friction, default-like solimp, small penetration
+    wit, vals = [], {"friction_in": [1.0, 0.6, 0.3, 0.2, 0.1], "solimp_in": [0.9, 0.95, 0.001, 0.5, 2.0], "solref_in": [0.02, 1.0], "solreffriction_in": [0.0, 0.0], "dist_in": [-0.001], "includemargin_in": [0.0], "opt_impratio_invsqrt": [0.5], "opt_timestep": [0.002], "body_invweight0": [0.7, 0.3], "adhesion_in": [0.0], "efc_Jqvel_in": [0.1]}
+    for lab, vv in vals.items():
+      cell = U.args[lab].cell
+      for kk in range(cell.ncomp):
+        wit += [x == vv[kk % len(vv)] for x in cell.d0[kk] if is_sym(x)]
+    ctx.reach(ctx.session(pre), "twin:contact-rows", And(*wit))
     want_t = L.T_FRICTIONLESS if dim == 1 else (L.T_ELLIPTIC if elliptic else L.T_PYRAMIDAL)
     names = {f"friction{i}": U.fr[i] for i in range(max(1, dim - 1))} | {"impratio_invsqrt": U.imp}
     rp = lambda nm: contact_update_replay(ctx, nm, U)
